@@ -1,4 +1,5 @@
 import Ucfg.Lemmas.Dict
+import Ucfg.Lemmas.MergeSelf
 import Ucfg.Model.Reify
 import Ucfg.Spec.C01
 /-
@@ -160,6 +161,146 @@ theorem mergeArr_index (h : Handling) (a1 a2 : List Val) (i : Nat) (x y : Val)
         simp at hx hy
         simp only [mergeArrP, List.getElem?_cons_succ]
         exact ih b j hx hy
+
+
+/-! ### identity in both directions, and self-merge
+
+On canonical trees (`canonV`: what NewFrom builds from plain data without null settings - sorted
+dictionaries, flags agreeing with the contents) equality of trees is `=`. -/
+
+/-- what is stored for a value merged into itself is the value -/
+theorem store_self (v : Val) (hc : canonV v = true) : store (some v) v v = v := by
+  unfold store
+  split
+  · rfl
+  · exact cpy_canon v hc
+
+mutual
+/-- a setting merged into itself is unchanged under the default, replace and list-replace policies -/
+theorem mergeVals_self (h : Handling) (hs : selfStable h) : ∀ (v : Val), canonV v = true →
+    mergeValsP h (some v) v = v
+  | .prim p, hc => by
+    unfold mergeValsP
+    cases p <;> simp [toCfg?, canonV] at hc ⊢
+  | .dyn _ _, _ => by
+    unfold mergeValsP
+    simp [toCfg?]
+  | .sub d a hd ha, hc => by
+    have hc0 := hc
+    simp only [canonV, Bool.and_eq_true, beq_iff_eq] at hc
+    obtain ⟨⟨⟨⟨hd1, ha1⟩, hsort⟩, hhd⟩, hha⟩ := hc
+    have hD := mergeD_self h hs d hd1
+    have hA := mergeA_self h hs a ha1
+    unfold mergeValsP
+    simp only [toCfg?]
+    have hdict : (if d.isEmpty then d else mergeDictP h (if h = .replace then [] else d) d) = d := by
+      by_cases he : d.isEmpty
+      · simp [he]
+      · simp only [he, if_false]
+        by_cases hr : h = .replace
+        · simp only [hr, if_true]
+          rw [mergeDictP_sorted .replace d [] hsort (by intro e he; simp at he)]
+          simp [cpyD_canon d hd1]
+        · simp only [hr, if_false]
+          exact mergeDictP_same h d d hsort (fun e he' => by
+            refine ⟨dget_mem_sorted d e.1 e.2 hsort he', ?_⟩
+            rw [hD e he']
+            exact store_self e.2 (canonD_mem d hd1 e he'))
+    have harr : arrPolicy h a a (mergeArrP h a a) ha = (a, ha) := by
+      have hm : mergeArrP h a a = a := mergeArrP_same h a (fun x hx => by
+        rw [hA x hx]; exact store_self x (canonA_mem a ha1 x hx))
+      have hflag : (ha || !a.isEmpty) = ha := by
+        cases ha <;> cases hae : a.isEmpty <;> simp_all
+      have hne : a.isEmpty = false → ha = true := by
+        intro hae; cases ha <;> simp_all
+      rcases hs with rfl | rfl | rfl | rfl
+      · simp [arrPolicy, hm, hflag]
+      · simp [arrPolicy, hm, hflag]
+      · simp only [arrPolicy]
+        cases hae : a.isEmpty
+        · simp [cpyA_canon a ha1, hne hae]
+        · simp
+      · simp only [arrPolicy]
+        cases hae : a.isEmpty
+        · simp [cpyA_canon a ha1, hne hae]
+        · simp
+    have hflagd : (if d.isEmpty then hd else true) = hd := by
+      cases hde : d.isEmpty <;> simp_all
+    rw [hdict, harr, hflagd]
+theorem mergeD_self (h : Handling) (hs : selfStable h) : ∀ (d : Dict), canonD d = true →
+    ∀ e ∈ d, mergeValsP h (some e.2) e.2 = e.2
+  | [], _, e, he => by simp at he
+  | (k, v) :: r, hc, e, he => by
+    simp only [canonD, Bool.and_eq_true] at hc
+    simp only [List.mem_cons] at he
+    rcases he with he | he
+    · rw [he]; exact mergeVals_self h hs v hc.1
+    · exact mergeD_self h hs r hc.2 e he
+theorem mergeA_self (h : Handling) (hs : selfStable h) : ∀ (a : List Val), canonA a = true →
+    ∀ x ∈ a, mergeValsP h (some x) x = x
+  | [], _, x, hx => by simp at hx
+  | v :: r, hc, x, hx => by
+    simp only [canonA, Bool.and_eq_true] at hc
+    simp only [List.mem_cons] at hx
+    rcases hx with hx | hx
+    · rw [hx]; exact mergeVals_self h hs v hc.1
+    · exact mergeA_self h hs r hc.2 x hx
+end
+
+/-- **Merging a config into itself changes nothing** under the default and the two replace policies, for
+every canonical tree of any shape and depth. -/
+theorem merge_self (h : Handling) (hs : selfStable h) (A : Val) (hA : A.isSub = true)
+    (hc : canonV A = true) : mergeP h A A = A := by
+  cases A with
+  | prim p => simp [Val.isSub] at hA
+  | dyn i e => simp [Val.isSub] at hA
+  | sub d a hd ha => exact mergeVals_self h hs _ hc
+
+/-- under append / prepend a self-merge doubles the list (the statement's "length is the sum") -/
+theorem merge_self_append_length (d : Dict) (a : List Val) (hd ha : Bool) :
+    (mergeP .append (.sub d a hd ha) (.sub d a hd ha)).arr.length = a.length + a.length ∧
+    (mergeP .prepend (.sub d a hd ha) (.sub d a hd ha)).arr.length = a.length + a.length := by
+  constructor
+  · exact append_length d d a a hd ha hd ha
+  · rw [prepend_length]
+
+/-- **Left identity**: merging B into the empty config gives B, under every policy. -/
+theorem merge_empty_left (h : Handling) (d : Dict) (a : List Val) (hd ha : Bool)
+    (hc : canonV (.sub d a hd ha) = true) (hfl : a.isEmpty = true → ha = false) :
+    mergeP h Val.empty (.sub d a hd ha) = .sub d a hd ha := by
+  · simp only [canonV, Bool.and_eq_true, beq_iff_eq] at hc
+    obtain ⟨⟨⟨⟨hd1, ha1⟩, hsort⟩, hhd⟩, hha⟩ := hc
+    have hne : a.isEmpty = false → ha = true := by
+      intro hae; cases ha <;> simp_all
+    simp only [mergeP, Val.empty]
+    unfold mergeValsP
+    simp only [toCfg?]
+    have hdict : (if d.isEmpty then [] else mergeDictP h (if h = .replace then [] else []) d) = d := by
+      by_cases he : d.isEmpty
+      · simp only [he, if_true]; cases d <;> simp_all
+      · simp only [he, if_false, ite_self]
+        rw [mergeDictP_sorted h d [] hsort (by intro e he; simp at he)]
+        simp [cpyD_canon d hd1]
+    have hflagd : (if d.isEmpty then false else true) = hd := by
+      cases hde : d.isEmpty <;> simp_all
+    have harr : arrPolicy h [] a (mergeArrP h [] a) false = (a, ha) := by
+      cases a with
+      | nil =>
+        have : ha = false := hfl rfl
+        cases h <;> simp_all [arrPolicy, mergeArrP, cpyA]
+      | cons x r =>
+        have hha' : ha = true := hne rfl
+        have hcp : cpy x :: cpyA r = x :: r := cpyA_canon (x :: r) ha1
+        cases h <;> simp [arrPolicy, mergeArrP, cpyA, hcp, hha']
+    rw [hdict, harr, hflagd]
+
+/-- non-vacuity: a two-level tree with a list is canonical, so the three theorems apply to it -/
+example : canonV (.sub [("a", .sub [("x", .prim (.int 1))] [] true false), ("b", .prim (.str "s"))]
+    [.prim (.bool true), .sub [] [.prim (.int 2)] false true] true true) = true := by decide
+/-- a null setting is outside the canonical trees: merged into itself it becomes an empty config
+(`cfgNil.toConfig`), which every view reads as null again -/
+example : mergeValsP .dflt (some Val.nilV) Val.nilV = Val.empty := by
+  unfold mergeValsP; simp [toCfg?, Val.nilV]
 
 /-! ### non-vacuity -/
 example : (dkeysOf [("a", Val.nilV), ("b", Val.nilV)]).Nodup := by decide
